@@ -424,6 +424,8 @@ static void do_request(int caller, int target, int idform, const char *payload, 
 	jx_sendf(conn[caller], "{%s\"method\":\"%s\",\"params\":{\"path\":\"%s\",\"%s\":%s%s}}", idm, r->is_call ? "call" : "set", r->path, r->is_call ? "args" : "value", payload, timeout_member);
 }
 
+static const char *reply_payload_override; /* payload layer: the owner's result / error value */
+
 static void sweep_dropped_stalled_peers(void)
 {
 	for (int sl = 0; sl < NSLOT; sl++) {
@@ -453,6 +455,9 @@ static void apply(const struct action *a)
 		struct req *r = oldest_pending_delivered(a->a);
 		const char *member = a->b ? "error" : "result";
 		const char *payload = a->b ? "{\"code\":123,\"message\":\"nope\",\"data\":[1,2]}" : "{\"ok\":[true,null,1.5]}";
+		if (reply_payload_override != NULL) {
+			payload = reply_payload_override;
+		}
 		snprintf(last_answered_rid[a->a], sizeof(last_answered_rid[a->a]), "%s", r->rid);
 		finalise(r, member, payload);
 		jx_sendf(conn[a->a], "{\"id\":\"%s\",\"%s\":%s}", r->rid, member, payload);
@@ -706,6 +711,9 @@ static void run_payloads(void)
 	int idform = xp_choose(3, XP_SCENARIO, "idform");
 	int to = xp_choose(3, XP_SCENARIO, "timeout");
 	int behaviour = xp_choose(6, XP_SCENARIO, "owner-behaviour"); /* result, error, none(timeout), duplicate, forged-first, owner leaves */
+	static const char *const REPLYVAL[] = {NULL /* the default object */, "null", "false", "0", "\"\"", "[]", "{}"};
+	int rv = (behaviour == 2 || behaviour == 5) ? 0 : xp_choose((int)(sizeof(REPLYVAL) / sizeof(REPLYVAL[0])), XP_SCENARIO, "owner-reply-value");
+	reply_payload_override = REPLYVAL[rv];
 	struct sim_opts o = {0};
 	jx_boot(&o);
 	for (int s = 0; s < NSLOT; s++) {
@@ -778,6 +786,6 @@ const struct driver drv_c03 = {
     .name = "c03",
     .property = "C03",
     .run = run,
-    .rule = "interleaving layer: every sequence of enabled actions up to the depth bound over {requests from 2 callers and a bystander to 2 owners, owner replies (result, error, duplicate, forged with another owner's live id / a never-issued id / a non-string id), clock advance to the next deadline, disconnect and reconnect of every slot}, judged after every action by a reference model of in-flight requests; payload layer: full product caller transport x target x payload x id form x timeout form x owner behaviour; an execution is non-trivial when it ran to its final expiry phase with the ledger balanced; states = canonical model states (merged tier) or distinct (model state, remaining depth) pairs",
+    .rule = "interleaving layer: every sequence of enabled actions up to the depth bound over {requests from 2 callers and a bystander to 2 owners, owner replies (result, error, duplicate, forged with another owner's live id / a never-issued id / a non-string id), clock advance to the next deadline, disconnect and reconnect of every slot}, judged after every action by a reference model of in-flight requests; payload layer: full product caller transport x target x payload x id form x timeout form x owner behaviour x value of the owner's result / error member (object, null, false, 0, empty string / array / object); an execution is non-trivial when it ran to its final expiry phase with the ledger balanced; states = canonical model states (merged tier) or distinct (model state, remaining depth) pairs",
     .assumptions = "timeout and shutdown answers are only required to be error responses (their texts are not compared)|an immediate refusal is accepted only while the owner has at least 2^(ROUTING_TABLE_ORDER-1) requests in flight|a reply carrying a non-string id is a protocol violation of that owner: the daemon may drop it, which the model treats as that owner disconnecting",
 };
